@@ -486,6 +486,20 @@ func (x *Exec) trCall(t *CCall, env *Env) Val {
 		return Val{T: tBool, S: sel(x.mapDom(env.old, m), k.S)}
 	case "is":
 		return Val{T: tBool, S: app("wraps", arg(0).S, arg(1).S)}
+	case "allocated":
+		// the object exists at this program point (it is not one allocated later): separates the
+		// elements of a collection from objects the loop body is about to allocate
+		v := arg(0)
+		top := fmt.Sprintf("(+ %s %d)", x.allocBase, x.allocN)
+		if _, ok := under(v.T).(*types.Slice); ok {
+			return Val{T: tBool, S: le(app("s_reg", v.S), top)}
+		}
+		return Val{T: tBool, S: le(v.S, top)}
+	case "pathJoin":
+		// filepath.Join(a, b) as the executed code computes it (injective uninterpreted function)
+		x.sc.declFun("pathJoin", []string{"Str", "Str"}, "Str")
+		x.sc.declare("ax:pathJoin", "(assert (forall ((a Str) (b Str) (c Str) (d Str)) (! (=> (= (pathJoin a b) (pathJoin c d)) (and (= a c) (= b d))) :pattern ((pathJoin a b) (pathJoin c d)))))")
+		return Val{T: types.Typ[types.String], S: app("pathJoin", arg(0).S, arg(1).S)}
 	case "min":
 		return Val{T: arg(0).T, S: app("imin", arg(0).S, arg(1).S)}
 	case "max":
